@@ -25,6 +25,11 @@ PANEL = [
     "Asia/Kolkata", "Asia/Kathmandu", "Australia/Lord_Howe", "America/New_York", "Europe/London",
     "America/St_Johns", "Pacific/Chatham", "XXX+3:45", "EST5EDT,M3.2.0,M11.1.0", "Asia/Tokyo",
 ]
+# further zones enumerated in the thorough tier
+PANEL_THOROUGH = [
+    "Asia/Tehran", "Australia/Adelaide", "Pacific/Marquesas", "Africa/Casablanca", "Asia/Yangon",
+    "America/Sao_Paulo", "Europe/Lisbon", "Antarctica/Troll", "Australia/Eucla", "America/Havana",
+]
 TIMEFRAMES = ["S30", "T1", "T5", "T15", "T30", "T45", "H1", "H2", "H4", "H7", "D1", "D2"]
 # local dates (naive axis) around which at least one panel zone changes its offset in 2023
 DST_DAYS = [
@@ -141,7 +146,7 @@ def execute(trace, ctx=None):
             raise Discard("nothing-collapsed")
         run.observe(ref[-1])
         n_appends = sum(1 for op in trace["ops"] if op["op"] == "append" and op["candles"])
-        for zone in PANEL:
+        for zone in PANEL + (PANEL_THOROUGH if planlib.thorough() else []):
             got = _run_under(run, trace, zone, False)
             for i, (g, w) in enumerate(zip(got, ref)):
                 run.op_index = i
